@@ -6,7 +6,7 @@ cd "$(dirname "$0")/.."
 V=$(pwd); W="$1"; shift
 [ -z "$1" ] && { echo "usage: par_matrix.sh <workers> <seed>..."; exit 2; }
 i=0; for n in "$@"; do k=$((i % W)); eval "set$k=\"\$set$k $n\""; i=$((i+1)); done
-rc=0
+rc=0; rm -f /var/tmp/pm*.log
 for k in $(seq 0 $((W-1))); do
   eval "names=\$set$k"; [ -z "$names" ] && continue
   (
